@@ -3,7 +3,7 @@
    /repo on every run by srcfacts/golite.go) under the interpreter of Base/GoLite.v.  [fn t] is the
    translated function, or a function that panics at once when the translator refused it. *)
 From Coq Require Import String.
-From Radius Require Import Base.Bytes Base.Res Base.Guard Base.GoLite Gen.Src Crypto.MD5 Model.SrcRun Proofs.SrcBase Proofs.SrcCtx Model.Attrs Spec.C09 Spec.C01 Spec.C03 Proofs.SrcAttrs Proofs.SrcAuth Proofs.SrcMarshal.
+From Radius Require Import Base.Bytes Base.Res Base.Guard Base.GoLite Gen.Src Crypto.MD5 Model.SrcRun Proofs.SrcBase Proofs.SrcCtx Model.Attrs Spec.C09 Spec.C01 Spec.C03 Proofs.SrcDefs Proofs.SrcAuth Proofs.SrcMarshal Proofs.SrcEncode.
 Open Scope list_scope.
 Open Scope nat_scope.
 
@@ -43,3 +43,15 @@ Theorem C03_encode_result_spec : forall c i auth sec vl,
   end.
 Proof. exact encode_result_spec. Qed.
 Print Assumptions C03_encode_result_spec.
+
+(* non-vacuity: an Accounting-Request encoded by the translated Encode is accepted by the translated
+   IsAuthenticRequest, and no longer after one flipped bit *)
+Example C03_src_example :
+  match src_run "Packet.Encode" 100 [vpacket 4 9 (repeat 0%N 16) (VBytes [115; 101; 99]%N) [vavp 1 (VBytes [97]%N)]] with
+  | Some (Some (VTup [VBytes w; VNil])) =>
+      src_run "IsAuthenticRequest" 100 [VBytes w; VBytes [115; 101; 99]%N] = Some (Some (VBool true)) /\
+      src_run "IsAuthenticRequest" 100 [VBytes (2%N :: tl w); VBytes [115; 101; 99]%N] = Some (Some (VBool false)) /\
+      src_run "IsAuthenticRequest" 100 [VBytes w; VBytes [115; 101]%N] = Some (Some (VBool false))
+  | _ => False
+  end.
+Proof. vm_compute. repeat split; reflexivity. Qed.
